@@ -49,6 +49,19 @@ def run(ctx):
     rows = D.sweep(ctx, scens(ctx, 500 if ctx.tier == 'quick' else 8000), [oracle], diffs, nontriv)
     ctx.sample({'scenario_key': D.scen_key(rows[4][0]), 'faults': rows[4][0]['faults'], 'consts': rows[4][0]['consts'], 'observed': rows[4][2]})
 
+    # real pool, real scripts: exit!=0, SIGKILL, hang past the timeout, forking, megabytes of output, bytes that are not UTF-8
+    import worldlib as W
+    from concurrent.futures import ThreadPoolExecutor
+    real = [W.scen_faults(ctx.rng), W.scen_noise(ctx.rng), W.scen_error_pass(ctx.rng)] + ([W.scen_faults(ctx.rng) for _ in range(4)] if ctx.tier != 'quick' else [])
+    with ThreadPoolExecutor(max_workers=3) as ex:
+        robs = list(ex.map(lambda sc: W.run(ctx, sc), real))
+    for sc, ob in zip(real, robs):
+        ctx.count()
+        sig = W.oracle_completes(sc, ob)
+        if sig:
+            ctx.report('real:' + sc['name'] + ':' + sig, f"{sc['name']}: {sig}: {(ob.get('error_text') or '')[:120]}", {'kind': 'real', 'scenario': sc})
+        ctx.nontrivial('real:' + sc['name'] + str(sc.get('N')))
+
     def search(budget):
         D.sweep(ctx, scens(ctx, 2000), [oracle], [], nontriv)
     conclude(ctx, diffs, search)
